@@ -154,11 +154,13 @@ impl<'a> TryFrom<&'a Val> for Xml<&'a [u8]> {
 macro_rules! write_kvs {
     ($w:ident, $a:ident, $f:expr) => {{
         $a.iter().try_for_each(|(k, v)| {
+            // use a quotation mark that does not occur in the value
+            let q = if v.contains(&b'"') { "'" } else { "\"" };
             write!($w, " ")?;
             $f(k)?;
-            write!($w, "=\"")?;
+            write!($w, "={q}")?;
             $f(v)?;
-            write!($w, "\"")
+            write!($w, "{q}")
         })
     }};
 }
